@@ -1,6 +1,7 @@
 import Siot.Lemmas.Export
 import Siot.Lemmas.ExportStore
 import Siot.Lemmas.ExportForest
+import Siot.Lemmas.ExportTime
 import Siot.Gen.Export
 /-
 C15 — Export followed by import reproduces the tree.
@@ -252,6 +253,15 @@ theorem c15_reexport (isDel : Nat → Bool) (st st' : St) (f : Flat)
     simp only [List.mem_filter] at hc hy
     simp only [shape, shapeOf, Prod.mk.injEq] at hs
     exact ih (d + 1) y hy.1 c hc.1 hs.2.1
+
+/-- **C15 (the file carries no time stamps).** The YAML file holds points without times; the store stamps them when
+they arrive. Importing such a file `f` (every time 0) at clock `now` — node after node, one clock reading per node —
+is, step for step and in its result, importing the same file with every point of node number *i* stamped `now + i`
+(`stampFlat`). That stamped file is the form `c15_import_stored` speaks about (stored rows, times not zero), so
+everything it says holds for the time-less file with the times of the import. -/
+theorem c15_import_timeless_file (f : Flat) (st : St) (now : Int) (hpos : 0 < now) :
+    sendAll st (zeroFlat f) now = sendAll st (stampFlat now f) now :=
+  sendAll_timeless f st now hpos
 
 /-- **C15 (an exported file is the traversal of its own tree).** On every store whose non-deleted edges form a
 forest — no node below two non-deleted edges (no mirrors) and no cycle — the file `exportNodesHelper` writes from any
